@@ -5,3 +5,4 @@ pub mod lair;
 pub mod epochs;
 pub mod access;
 pub mod toggles;
+pub mod config;
